@@ -27,7 +27,8 @@
    recycles), see [check].
    Part 3: order in which from_feedstock joins the recycle loops.
    Part 4: Network.sort on nested paths (items = units and sub-networks).
-   Part 5: the path surgery (_remove_overlap ... _insert_recycle_network) on trees that keep `units`. *)
+   Part 5: the path surgery (_remove_overlap ... _insert_recycle_network) on trees that keep `units`.
+   Part 6: path finding (fill_path, simplified_linear_paths). *)
 From V Require Export Common.Num.
 Local Open Scope nat_scope.
 
@@ -651,4 +652,92 @@ Definition step_post (st : step) (r : option net) : bool :=
 
 Definition step_case (es all : list edge) (tbl : list (list nat * nat)) (st : step)
            (after : option net) : bool :=
-  onet_eqb (run_step es all tbl st) after && step_post st (run_step es all tbl st).
+  let r := run_step es all tbl st in onet_eqb r after && step_post st r.
+
+(* ------------------------------------------------------------------ part 6: path finding
+   find_linear_and_cyclic_paths_with_recycle (network.py): fill_path (depth-first walk that follows
+   the outlets other than the first on copies of the path, then the first outlet on the path itself;
+   `ends` grows while walking), path_with_recycle_to_cyclic_path_with_recycle, the stable sort of the
+   cyclic paths by decreasing length, and simplified_linear_paths (stable sort by length, units
+   that occur in a longer path are removed from the shorter one, empty fragments dropped,
+   result reversed: longest first).  Streams of [all] are listed in outlet-port order. *)
+Definition out_streams (all : list edge) (u : nat) : list edge := filter (fun e => src e =? u) all.
+
+Record pstate : Type := mkp {
+  with_rc : list (list nat * nat);    (* paths_with_recycle: (path, recycle stream) *)
+  without_rc : list (list nat);       (* paths_without_recycle *)
+  pends : list nat                    (* ends *)
+}.
+Definition add_without (p : list nat) (st : pstate) : pstate :=
+  mkp (with_rc st) (without_rc st ++ [p]) (pends st).
+Definition add_with (p : list nat) (s : nat) (st : pstate) : pstate :=
+  mkp (with_rc st ++ [(p, s)]) (without_rc st) (if memb s (pends st) then pends st else pends st ++ [s]).
+
+Fixpoint fill (fuel : nat) (all : list edge) (feed : edge) (path : list nat) (st : pstate) : pstate :=
+  match fuel with
+  | O => st
+  | S f =>
+      let u := dst feed in
+      if u =? nounit then add_without path st
+      else if memb (sid feed) (pends st) then add_without path st
+      else if memb u path then
+        match out_streams all u with
+        | [o] => if memb (sid o) (pends st) then add_without path st else add_with path (sid feed) st
+        | _ => add_with path (sid feed) st
+        end
+      else
+        let path' := path ++ [u] in
+        match out_streams all u with
+        | [] => st
+        | first :: others =>
+            fill f all first path' (fold_left (fun st o => fill f all o path' st) others st)
+        end
+  end.
+
+Fixpoint drop_until (u : nat) (p : list nat) : list nat :=
+  match p with
+  | [] => []
+  | x :: t => if x =? u then p else drop_until u t
+  end.
+
+Fixpoint ins_asc (x : list nat) (l : list (list nat)) : list (list nat) :=
+  match l with
+  | [] => [x]
+  | y :: t => if length x <=? length y then x :: y :: t else y :: ins_asc x t
+  end.
+Definition sort_len_asc (l : list (list nat)) : list (list nat) := fold_right ins_asc [] l.
+
+Fixpoint ins_desc (x : list nat * nat) (l : list (list nat * nat)) : list (list nat * nat) :=
+  match l with
+  | [] => [x]
+  | y :: t => if length (fst y) <=? length (fst x) then x :: y :: t else y :: ins_desc x t
+  end.
+Definition sort_len_desc (l : list (list nat * nat)) : list (list nat * nat) := fold_right ins_desc [] l.
+
+(* simplify_linear_path over the sorted list: drop the units that occur in a later (longer) path *)
+Fixpoint simp (lp : list (list nat)) : list (list nat) :=
+  match lp with
+  | [] => []
+  | p :: rest => filter (fun u => negb (existsb (memb u) rest)) p :: simp rest
+  end.
+
+Definition simplified (paths : list (list nat)) : list (list nat) :=
+  rev (filter (fun p => negb (is_nil p)) (simp (sort_len_asc paths))).
+
+Definition find_paths (all : list edge) (feed : edge) (ends : list nat)
+  : list (list nat) * list (list nat * nat) * list nat :=
+  let st := fill (S (length all)) all feed [] (mkp [] [] ends) in
+  (simplified (without_rc st),
+   sort_len_desc (map (fun pr => (drop_until (sink_of all (snd pr)) (fst pr), snd pr)) (with_rc st)),
+   pends st).
+
+Definition paths_case (all : list edge) (feed : nat) (ends : list nat)
+           (exp_linear : list (list nat)) (exp_cyclic : list (list nat * nat)) (exp_ends : list nat) : bool :=
+  match find (fun e => sid e =? feed) all with
+  | None => false
+  | Some fe =>
+      let '(lin, cyc, ends') := find_paths all fe ends in
+      list_eqb (list_eqb Nat.eqb) lin exp_linear
+      && list_eqb (fun a b => list_eqb Nat.eqb (fst a) (fst b) && (snd a =? snd b)) cyc exp_cyclic
+      && set_eqb ends' exp_ends
+  end.
